@@ -76,6 +76,9 @@ class Builder:
         elif name == "Rotate":
             val = v
         else:
+            if name == "MediaBox" and self.case.get("corners"):
+                # any two diagonally opposite corners define the rectangle (ISO 32000-1 7.9.5)
+                v = (v[2], v[3], v[0], v[1]) if self.case["corners"] == "swapped" else (v[0], v[3], v[2], v[1])
             val = [nv(x) for x in v]
             if spec["ind"] == 2:
                 out = []
@@ -212,6 +215,8 @@ def run_case(case):
     nt = False
     if case.get("spine"):
         classes.append("deep-spine")
+    if case.get("corners"):
+        classes.append("mediabox-corners:" + case["corners"])
     if case.get("cyclic"):
         classes.append("cyclic")
         nt = True
@@ -249,7 +254,16 @@ def run_case(case):
         mb = tuple(float(v) for v in eff["MediaBox"][0]["v"])
         cb = tuple(float(v) for v in eff["CropBox"][0]["v"]) if "CropBox" in eff else mb
         rot = (eff["Rotate"][0]["v"] % 360) if "Rotate" in eff else 0
-        if tuple(page.mediabox) != mb:
+        corners = case.get("corners")
+        if corners:
+            # written with another pair of opposite corners: the page must still get *this* box (its own or the nearest
+            # ancestor's), as the four numbers written or as the same rectangle with the corners put in order
+            written = (mb[2], mb[3], mb[0], mb[1]) if corners == "swapped" else (mb[0], mb[3], mb[2], mb[1])
+            if tuple(page.mediabox) not in (written, mb):
+                return Outcome(classes, nt, fail="page %d mediabox %r expected %r (written %r); %s" % (i, page.mediabox, mb, written, desc()))
+            if "CropBox" not in eff:
+                cb = tuple(page.mediabox)
+        elif tuple(page.mediabox) != mb:
             return Outcome(classes, nt, fail="page %d mediabox %r expected %r; %s" % (i, page.mediabox, mb, desc()))
         if tuple(page.cropbox) != cb:
             return Outcome(classes, nt, fail="page %d cropbox %r expected %r; %s" % (i, page.cropbox, cb, desc()))
@@ -261,6 +275,13 @@ def run_case(case):
             return Outcome(classes, nt, fail="page %d resources %r; %s" % (i, res, desc()))
         w, h = mb[2] - mb[0], mb[3] - mb[1]
         ebox = (0, 0, h, w) if rot in (90, 270) else (0, 0, w, h)
+        if corners:
+            # (where the page box and the glyphs land for such a MediaBox is not asserted)
+            chars = [c for c in interp.leaves(lt) if isinstance(c, LTChar)]
+            if "".join(c.get_text() for c in chars) != node["text"]:
+                return Outcome(classes, nt, fail="page %d text %r expected %r; %s" % (
+                    i, "".join(c.get_text() for c in chars), node["text"], desc()))
+            continue
         if tuple(lt.bbox) != ebox:
             return Outcome(classes, nt, fail="page %d LTPage.bbox %r expected %r (rotate %d, mediabox %r); %s" % (
                 i, lt.bbox, ebox, rot, mb, desc()))
@@ -275,6 +296,15 @@ def run_case(case):
         if (chars[0].matrix[4], chars[0].matrix[5]) != (float(ex), float(ey)):
             return Outcome(classes, nt, fail="page %d glyph origin %r expected %r (rotate %d, mediabox %r, point %r); %s" % (
                 i, chars[0].matrix[4:], (float(ex), float(ey)), rot, mb, node["pt"], desc()))
+    # ---- a second walk over the same document (count the pages, then read them) gives the same pages in the same order
+    if pages and not case.get("cyclic"):
+        try:
+            again = [p.pageid for p in PDFPage.create_pages(pages[0].doc)]
+        except Exception as e:
+            return Outcome(classes, nt, fail="second create_pages() on the same document raised %s: %s; %s" % (type(e).__name__, e, desc()))
+        if again != [p.pageid for p in pages]:
+            return Outcome(classes, nt, fail="second create_pages() on the same document: page order %r, first walk %r; %s" % (
+                again, [p.pageid for p in pages], desc()))
     # ---- walking the page tree does not change the objects: what getobj returns for a node afterwards (the document of
     # the PDFPage objects has object caching on) holds the entries written for that node, not the inherited ones
     if pages:
@@ -291,7 +321,7 @@ def run_case(case):
                         num, got, want, desc()))
     # ---- the `rotation` option of extract_text_to_fp is added to /Rotate and reduced modulo 360 in the same way
     rot_opt = case.get("rotation", 0)
-    if rot_opt and n:
+    if rot_opt and n and not case.get("corners"):
         from pdfminer.high_level import extract_text_to_fp
 
         try:
@@ -432,7 +462,8 @@ def cases(draw):
     if draw(st.integers(0, 2)) > 0 and "MediaBox" not in root["attrs"]:
         root["attrs"]["MediaBox"] = {"v": draw(box()), "ind": draw(st.integers(0, 2))}
     _fixup(root, set(), [0], draw)
-    case = {"tree": root, "cyclic": cyc, "spine": case_spine}
+    case = {"tree": root, "cyclic": cyc, "spine": case_spine,
+            "corners": draw(st.sampled_from([None] * 6 + ["swapped", "other-diagonal"]))}
     # glyph points must lie inside the effective MediaBox: computed with the walker
     b = Builder({"tree": root})
     leaves = b.walk()
